@@ -1,15 +1,22 @@
 #!/bin/bash
-# applies each kept seeded change (/verif/seeded/*/patch.diff) to a scratch worktree and runs its property's check; prints those NOT reported
-WT=/tmp/wt/sscan
-git -C /repo worktree remove --force $WT 2>/dev/null
-git -C /repo worktree add -q --detach $WT HEAD
-n=0; miss=0
-for d in /verif/seeded/*/; do
-  id=$(basename $d); prop=$(python3 -c "import json;print(json.load(open('$d/meta.json'))['property'])")
-  (cd $WT && git checkout -q . && git clean -fdq && git apply $d/patch.diff 2>/dev/null) || { echo "$id APPLY-FAILED (tree moved on)"; continue; }
-  out=$(/verif/bin/lhcheck -repo $WT -prop $prop -out /tmp/ev_sscan 2>&1); code=$?
-  n=$((n+1))
-  if [ $code -ne 1 ]; then miss=$((miss+1)); echo "$id NOT REPORTED exit=$code"; fi
-done
-echo "seeded changes scanned: $n, not reported: $miss"
-(cd $WT && git checkout -q . && git clean -fdq); git -C /repo worktree remove --force $WT
+# applies each kept seeded change (/verif/seeded/*/patch.diff) to its own scratch worktree and runs its property's check;
+# prints those NOT reported (expected: only those whose meta.json records check_exit 0 with a reason). usage: scan_seeded.sh [jobs] [id-regex]
+J=${1:-4}; RE=${2:-.}
+one() {
+  d=$1; id=$(basename $d)
+  prop=$(python3 -c "import json;print(json.load(open('$d/meta.json'))['property'])")
+  WT=$(mktemp -d /tmp/ss.XXXXXX)/wt
+  git -C /repo worktree add -q --detach $WT HEAD 2>/dev/null
+  if (cd $WT && git apply $d/patch.diff 2>/dev/null); then
+    out=$(/verif/bin/lhcheck -repo $WT -prop $prop -out /tmp/ev_ss_$id 2>&1); code=$?
+    rules=$(echo "$out" | grep "^  rule" | sed 's/^  rule \([^:]*\):.*/\1/' | sort -u | tr '\n' ',')
+    if [ $code -ne 1 ]; then echo "$id NOT REPORTED exit=$code $(echo "$out" | grep -E 'BROKEN|UNDECIDED' | head -1 | cut -c1-160)"; else echo "$id ok [$rules]"; fi
+  else
+    echo "$id APPLY-FAILED (tree moved on)"
+  fi
+  git -C /repo worktree remove --force $WT 2>/dev/null; rm -rf $(dirname $WT) /tmp/ev_ss_$id
+}
+export -f one
+ls -d /verif/seeded/*/ | grep -E "$RE" | xargs -P $J -I{} bash -c 'one {}' | sort > /tmp/scan_seeded.out
+grep -v " ok " /tmp/scan_seeded.out
+echo "seeded changes scanned: $(wc -l < /tmp/scan_seeded.out), not reported: $(grep -c 'NOT REPORTED' /tmp/scan_seeded.out), apply failed: $(grep -c APPLY-FAILED /tmp/scan_seeded.out)"
